@@ -4,6 +4,7 @@ import (
 	"bytes"
 	"fmt"
 	"io"
+	"log"
 	"net"
 	"strings"
 	"sync"
@@ -267,6 +268,7 @@ func TestC12(t *testing.T) {
 	// what a node packs into its packets (gossip alone, or piggybacked on a ping/ack) is what the receiver unpacks
 	forCases(n/5, 123, "p", func(i int, r *rng, id string) { pktLeg("C12", r, id) })
 	forCases(n/3, 124, "a", func(i int, r *rng, id string) { c12AlivePort(r, id) })
+	forCases(12, 125, "u", func(i int, r *rng, id string) { c12Udp(r, id) })
 }
 
 // c12AlivePort: an alive message received on the packet path keeps its port - except that a message without a
@@ -289,4 +291,89 @@ func c12AlivePort(r *rng, id string) {
 		}
 	}
 	emit("C12 aliveport id=%s proto=%d bind=7946 port=%d got=%d panic=%d", id, proto, port, got, b2i(pan))
+}
+
+// c12Udp: best-effort user messages of 1 byte to 12 kB arrive over the stock UDP transport while the application
+// is busy with an earlier one; afterwards the delegate has received every payload byte for byte.
+func c12Udp(r *rng, id string) {
+	seed := r.next()
+	var line string
+	for attempt := 1; attempt <= 2; attempt++ {
+		var missingOnly bool
+		line, missingOnly = c12UdpOnce(&rng{s: seed | 1}, id, attempt)
+		if line == "" || !missingOnly {
+			break
+		}
+	}
+	if line != "" {
+		emit("%s", line)
+	}
+}
+
+func c12UdpOnce(r *rng, id string, attempt int) (string, bool) {
+	nt, err := ml.NewNetTransport(&ml.NetTransportConfig{BindAddrs: []string{"127.0.0.1"}, BindPort: 0, Logger: log.New(io.Discard, "", 0)})
+	if err != nil {
+		return "", false // no loopback sockets here
+	}
+	del := &userDel{block: make(chan struct{})}
+	conf := ml.DefaultLANConfig()
+	conf.Name = "R"
+	conf.Transport = nt
+	conf.AdvertiseAddr = "10.0.0.9"
+	conf.AdvertisePort = 7946
+	conf.BindPort = 7946
+	conf.ProbeInterval = time.Hour
+	conf.GossipInterval = 0
+	conf.PushPullInterval = 0
+	conf.Delegate = del
+	conf.Logger = log.New(io.Discard, "", 0)
+	m, err := ml.Create(conf)
+	if err != nil {
+		nt.Shutdown()
+		return "", false
+	}
+	defer m.Shutdown()
+	c, err := net.DialUDP("udp", nil, &net.UDPAddr{IP: net.IPv4(127, 0, 0, 1), Port: nt.GetAutoBindPort()})
+	if err != nil {
+		return "", false
+	}
+	defer c.Close()
+	k := 3 + r.intn(5)
+	want := map[string]int{}
+	for i := 0; i < k; i++ {
+		size := []int{1, 40, 900, 4095, 4096, 5000, 6000, 12000}[r.intn(8)]
+		if i == 0 {
+			size = 10 // the message the application is busy with
+		}
+		p := r.bytes(size)
+		p[0] = byte(i)
+		c.Write(append([]byte{8}, p...))
+		want[string(p)]++
+		time.Sleep(3 * time.Millisecond)
+	}
+	time.Sleep(30 * time.Millisecond)
+	close(del.block)
+	deadline := time.Now().Add(3 * time.Second)
+	var got [][]byte
+	for time.Now().Before(deadline) {
+		got = append(got, del.take()...)
+		if len(got) >= k && ml.VerifHandoffLen(m) == 0 {
+			break
+		}
+		time.Sleep(5 * time.Millisecond)
+	}
+	wrong := 0
+	for _, g := range got {
+		if want[string(g)] > 0 {
+			want[string(g)]--
+		} else {
+			wrong++
+		}
+	}
+	missing := 0
+	for _, c := range want {
+		missing += c
+	}
+	return fmt.Sprintf("C12 udp id=%s attempt=%d sent=%d got=%d missing=%d wrong=%d extra=0", id, attempt, k, len(got), max(0, missing-wrong), wrong),
+		missing > 0 && wrong == 0
 }
